@@ -102,16 +102,20 @@ func (r *positionalRelation) Map(f func(Values) (Value, error)) (Set, error) {
 }
 
 func (r *positionalRelation) Where(p func(Values) (bool, error)) (_ *positionalRelation, err error) {
+	// frozen runs the callback on several goroutines for large sets.
+	var mu sync.Mutex
 	set := r.set.Where(func(elem any) bool {
-		if err != nil {
-			return false
-		}
-		if elem == nil {
+		mu.Lock()
+		failed := err != nil
+		mu.Unlock()
+		if failed || elem == nil {
 			return false
 		}
 		match, err2 := p(elem.(Values))
 		if err2 != nil {
+			mu.Lock()
 			err = err2
+			mu.Unlock()
 			return false
 		}
 		return match
